@@ -190,6 +190,17 @@ impl World {
                 ))
             }
             "id" => Box::new(TermQuery::new(Term::from_field_u64(self.f.id, p["id"].as_u64().unwrap()), IndexRecordOption::Basic)),
+            // boolean predicates (flat): term OR range, term AND NOT range - deletes go through
+            // BooleanWeight::for_each_no_score instead of the single-term path
+            "or" | "andnot" => {
+                let term: Box<dyn Query> = self.pred_query(&json!({"k":"term","t":p["t"]}));
+                let range: Box<dyn Query> = self.pred_query(&json!({"k":"vrange","lo":p["lo"],"hi":p["hi"]}));
+                if p["k"] == "or" {
+                    Box::new(tantivy::query::BooleanQuery::new(vec![(tantivy::query::Occur::Should, term), (tantivy::query::Occur::Should, range)]))
+                } else {
+                    Box::new(tantivy::query::BooleanQuery::new(vec![(tantivy::query::Occur::Must, term), (tantivy::query::Occur::MustNot, range)]))
+                }
+            }
             k => panic!("unknown predicate {k}"),
         }
     }
